@@ -43,26 +43,7 @@ static inline void gvs_append_lit(struct gv_str *t, const char *lit)
 #undef GVS_PUT
 }
 
-/* ---- specification vocabulary (call-free macros: usable in loop invariants) ---- */
-#define B4(b, p, c0, c1, c2, c3) ((b)[p] == (c0) && (b)[(p) + 1] == (c1) && (b)[(p) + 2] == (c2) && (b)[(p) + 3] == (c3))
-#define IS_LT(b, p, end)   ((p) + 4 <= (end) && B4(b, p, '&', 'l', 't', ';'))
-#define IS_GT(b, p, end)   ((p) + 4 <= (end) && B4(b, p, '&', 'g', 't', ';'))
-#define IS_AMP(b, p, end)  ((p) + 5 <= (end) && B4(b, p, '&', 'a', 'm', 'p') && (b)[(p) + 4] == ';')
-#define IS_QUOT(b, p, end) ((p) + 6 <= (end) && B4(b, p, '&', 'q', 'u', 'o') && (b)[(p) + 4] == 't' && (b)[(p) + 5] == ';')
-#define IS_APOS(b, p, end) ((p) + 6 <= (end) && B4(b, p, '&', 'a', 'p', 'o') && (b)[(p) + 4] == 's' && (b)[(p) + 5] == ';')
-/* a reference to one of the five predefined entities starts at p */
-#define ENTITY_AT(b, p, end) (IS_LT(b, p, end) || IS_GT(b, p, end) || IS_AMP(b, p, end) || IS_QUOT(b, p, end) || IS_APOS(b, p, end))
-/* position p of the character data b[0..end) carries no raw markup: no '<', no '>', and '&' only as the start
-   of a predefined entity reference (XML 1.0 production [14] CharData / [68] EntityRef) */
-#define NORAW_AT(b, p, end) ((b)[p] != '<' && (b)[p] != '>' && ((b)[p] != '&' || ENTITY_AT(b, p, end)))
-/* the segment b[p..p+l) is well-formed character data that XML-unescapes to exactly the one byte c */
-#define SEG_DECODES_TO(b, p, l, c)                                                                              \
-  ((c) == '<'  ? ((l) == 4 && IS_LT(b, p, (p) + (l)))                                                           \
- : (c) == '>'  ? ((l) == 4 && IS_GT(b, p, (p) + (l)))                                                           \
- : (c) == '&'  ? ((l) == 5 && IS_AMP(b, p, (p) + (l)))                                                          \
- : (c) == '"'  ? (((l) == 1 && (b)[p] == '"') || ((l) == 6 && IS_QUOT(b, p, (p) + (l))))                        \
- : (c) == '\'' ? (((l) == 1 && (b)[p] == '\'') || ((l) == 6 && IS_APOS(b, p, (p) + (l))))                       \
- :               ((l) == 1 && (b)[p] == (c)))
+#include "xml_spec.h"   /* specification vocabulary + spec function xml_unescape (shared with replay.cpp) */
 /* segment [p, p+l) lies inside [0, end), 1 <= l <= 6 (written without a sum that could overflow) */
 #define SEG_IN(p, l, end) (0 <= (p) && 1 <= (l) && (l) <= 6 && (p) <= (end) && (l) <= (end) - (p))
 /* the contract is discharged in two parts (one dfcc run each, selected by -DGV_PART): 1 = no raw markup at any output
@@ -108,6 +89,9 @@ __CPROVER_decreases(gv_n - IDX(i))
 //@ head str2xml 1
 const long gv_idx = IDX(i);
 const long gv_len_before = t.len;
+#ifdef GV_EXCL_QUOTES   /* exclusion predicate of the finding "apostrophe is written as &quot;": no input byte is an apostrophe */
+GV_INST(0 <= gv_idx && gv_idx < gv_n, gv_b[gv_idx] != '\'');
+#endif
 //@ tail str2xml 1
 #if GV_PART == 2
 /* per-character step, stated for EVERY iteration (the loop contract makes this iteration an arbitrary one) */
@@ -141,25 +125,6 @@ void h_str2xml(void)
 #endif
 
 #ifdef GV_H_RT
-/* spec function: XML-unescape character data over the five predefined entities.  Returns the decoded length, or
-   -1 if the data is not well-formed (raw '<', raw '>', or '&' that does not start a predefined entity).        */
-static long xml_unescape(const char *in, long n, char *out)
-{
-  long i = 0, m = 0;
-  while (i < n) {
-    char c = in[i];
-    if (c == '<' || c == '>') return -1;
-    if (c != '&') { out[m++] = c; i += 1; }
-    else if (IS_LT(in, i, n))   { out[m++] = '<';  i += 4; }
-    else if (IS_GT(in, i, n))   { out[m++] = '>';  i += 4; }
-    else if (IS_AMP(in, i, n))  { out[m++] = '&';  i += 5; }
-    else if (IS_QUOT(in, i, n)) { out[m++] = '"';  i += 6; }
-    else if (IS_APOS(in, i, n)) { out[m++] = '\''; i += 6; }
-    else return -1;
-  }
-  return m;
-}
-
 #ifndef GV_N
 #define GV_N 6
 #endif
